@@ -53,11 +53,15 @@ bool contOnly(std::string const& variant) { return variant.size() > 5 && variant
 std::string core(std::string const& variant) { return contOnly(variant) ? variant.substr(0, variant.size() - 5) : variant; }
 std::string flavourOf(std::string const& variant) { std::string v = core(variant); return v.substr(0, v.size() - 3); }
 std::size_t stepsOf(std::string const& variant) { std::string v = core(variant); return (std::size_t)(v[v.size() - 1] - '0'); }
-bool has(std::string const& fl, char const* what) { return fl.find(what) != std::string::npos; }
+// flavours are '_'-separated words ("noref_individual"): whole-word test
+bool has(std::string const& fl, char const* what) { return ("_" + fl + "_").find("_" + std::string(what) + "_") != std::string::npos; }
 
+// Reference point for the 2-objective benchmark ZDT1 (f1 in [0,1], f2 in [0,10]): just outside the attainable box, so
+// that the boundary points of a front get SMALL contributions and are removed first -- without a reference point the
+// indicator never removes an extreme point, so the selection (and every later iterate) depends on the reference.
 RealVector refPoint(Prng& r, std::size_t objectives) {
 	RealVector ref(objectives);
-	for (std::size_t i = 0; i != objectives; ++i) ref(i) = 11.0 + r.uni();
+	for (std::size_t i = 0; i != objectives; ++i) ref(i) = (i == 0 ? 1.0 : 10.0) + (1.0 + r.uni()) / 1024;
 	return ref;
 }
 
